@@ -313,7 +313,7 @@ pub fn run(ctx: &mut Ctx) {
         assert_eq!(pos_index(p.0, p.1) as usize, i);
         assert_eq!(index_pos(i as u16), *p);
     }
-    ctx.rule = "positions = the 1176 (turn<river) deck-index pairs + terminal. (1) exhaustive: for fixed configurations, every ordered pair from <= to of the 1177 positions (693,253 windows each; quick 2 configurations, thorough 6) - the scoped run must equal the unscoped run's window position by position (multiset inside a position), be exhausted afterwards (3 more next() calls). (2) proptest histories: small generated configurations (pool/free ranges, players holding the first/last deck cards so head rows / the tail are empty, no players), 0-3 scope() calls before iteration (last wins), windows biased to row starts/ends/terminal/empty/one-position, next() after exhaustion. (3) proptest chains: 0-63 sorted cut points (duplicates = empty scopes), every link compared and the concatenation compared with the full run. Non-trivial = window contains a row rollover, has an empty position at an edge, is empty or ends at the terminal (chains: >= 1 cut); distinct by (configuration, window/cuts).".into();
+    ctx.rule = "positions = the 1176 (turn<river) deck-index pairs + terminal. (1) exhaustive: for fixed configurations, every ordered pair from <= to of the 1177 positions (693,253 windows each; quick 2 configurations, thorough 6) - the scoped run must equal the unscoped run's window position by position (multiset inside a position), be exhausted afterwards (3 more next() calls). (2) proptest histories: small generated configurations (pool/free ranges, players holding the first/last deck cards so head rows / the tail are empty, no players), 0-3 scope() calls before iteration (last wins), windows biased to row starts/ends/terminal/empty/one-position, next() after exhaustion. (3) proptest chains: 0-63 sorted cut points (duplicates = empty scopes), every link compared and the concatenation compared with the full run. (4) windows over 3 ranges of 300-1326 combos (or 4 of up to 160) (more than 2^32 odometer slots, cannot be drained): the first showdowns must lie inside the window, in position order, start at the first position with a legal deal and be as many as the window provably holds. Non-trivial = window contains a row rollover, has an empty position at an edge, is empty or ends at the terminal (chains: >= 1 cut); distinct by (configuration, window/cuts).".into();
     ctx.assumptions = vec![
         "only valid positions (t<r<=48 or (48,49)) with from <= to are generated; aliases like (47,49) are outside the statement".into(),
         "showdowns are compared through a 64-bit fingerprint of board, hole cards, power indexes, winner flags, winner_len and probability bits".into(),
@@ -368,12 +368,23 @@ pub fn run(ctx: &mut Ctx) {
     ctx.run_random_brief(StreamCfg::new("scope_chains", CHAIN_CLASSES, cases).shrink(300), chain_strategy, check_chain, |c| json!({"cfg": c.cfg.brief(), "cuts": c.cuts.iter().map(|x| index_pos(*x)).collect::<Vec<_>>()}));
     ctx.require_class("scope_chains", "empty_scope_in_chain", cases / 10);
     ctx.require_class("scope_chains", "cut_at_empty_position", cases / 20);
+    // windows over configurations far too large to drain (slot counts beyond 2^32): prefix only
+    let cases = ctx.tier.pick(200, 4_000);
+    ctx.run_random_brief(
+        StreamCfg::new("huge_scoped_prefix", crate::props::c02::PREFIX_CLASSES, cases).shrink(40),
+        || crate::props::c02::prefix_strategy(true),
+        crate::props::c02::check_prefix,
+        |c| json!({"cfg": c.cfg.brief(), "take": c.take}),
+    );
+    ctx.require_class("huge_scoped_prefix", "window_slots_over_2_32", cases / 4);
+    ctx.require_class("huge_scoped_prefix", "scoped", cases / 2);
     ctx.extra.insert("exhaustive_over".into(), json!(format!("all 693,253 (from <= to) windows for {} fixed configuration(s)", nsweep)));
 }
 
 pub fn replay(stream: &str, path: &str, case: &Value) -> i32 {
     match stream {
         "scope_chains" => replay_case::<ChainCase>("C04", path, case, check_chain),
+        "huge_scoped_prefix" => replay_case::<crate::props::c02::PrefixCase>("C04", path, case, crate::props::c02::check_prefix),
         _ => replay_case::<Case>("C04", path, case, check_case),
     }
 }
